@@ -430,3 +430,4 @@ def lossy_simulator_sends_only_elements_of_the_chain(spa: bytes, start: int, len
     sim._on_status_block(Req(start, length), SENDER)
     ensures("only-chain-elements-in-increasing-position", mon.ok)
     cover("reached-end", True)
+
